@@ -667,7 +667,20 @@ def run_runner(out, files, cwd):
     return "ran"
 
 
-def judge(res, cfg, template, am, fc, family, case_ref, real_black=False, force_process=False):
+# ids that are legal JSON but awkward as Python module / class / function names
+ODD_IDS = ["3dPrinter", "9lives", "1st", "_private", "__dunder__", "UPPER", "MiXed-Case", "with space", "ünï",
+           "a" * 70, "class", "import", "None", "x__y", "trailing_", "Z9", "2", "logic", "runner", "test", "os",
+           "json", "typing", "xstate_statemachine", "main", "build", "self", "State", "日本", "a-b-c", "a.b"]
+
+
+def odd_id_config(ordinal):
+    return {"id": ODD_IDS[ordinal % len(ODD_IDS)].replace(".", "_"), "initial": "idle", "context": {"n": 0},
+            "states": {"idle": {"on": {"GO": {"target": "busy", "actions": ["startWork"]}}},
+                       "busy": {"entry": ["logEntry"], "on": {"BACK": {"target": "idle", "guard": "isDone"}}}}}
+
+
+def judge(res, cfg, template, am, fc, family, case_ref, real_black=False, force_process=False,
+          force_in_cwd=False):
     tmp = tempfile.mkdtemp(prefix="xsv17_")
     witness = {"family": family, "template": template, "async": am, "files": fc, "config": cfg}
     key_t = template
@@ -677,8 +690,8 @@ def judge(res, cfg, template, am, fc, family, case_ref, real_black=False, force_
         fast_black(not real_black)
         # every fourth run writes next to the JSON (the CLI's default): the output directory is then
         # the working directory, where tools that look at the disk see the freshly written modules
-        in_cwd = res.evaluations % 4 == 3 and (
-            FULL_PROCESS_RUNS or res.counters.get("cli.runs.output-in-working-directory", 0) < 2)
+        in_cwd = force_in_cwd or (res.evaluations % 4 == 3 and (
+            FULL_PROCESS_RUNS or res.counters.get("cli.runs.output-in-working-directory", 0) < 2))
         argv = ["generate-template", "m.json", "-t", template] + ([] if in_cwd else ["-o", "out"]) + [
             "-fc", str(fc), "-am", am, "-f", "--sleep", "no"]
         proc = in_cwd or force_process
@@ -859,6 +872,8 @@ def run_chunk(spec):
         jobs.append(("hostile-id", ci * 100000 + 60000 + j, None))
     for j in range(1 if tier == "quick" else 6):
         jobs.append(("counter", ci * 100000 + 70000 + j, None))
+    for j in range(1 if tier == "quick" else 6):
+        jobs.append(("odd-id", ci * 100000 + 80000 + j, None))
     stately = sorted(os.listdir(STATELY)) if os.path.isdir(STATELY) else []
     mine = [f for i, f in enumerate(stately) if i % NCHUNKS == ci]
     if tier == "quick":
@@ -879,6 +894,9 @@ def run_chunk(spec):
                                     ordinal=(j_ * NCHUNKS + ci) if tier == "quick" else (j_ + 2 * ci))
         elif family == "counter":
             cfg = counter_config(rng_for(spec["seed"], ID, ci, idx, "counter"))
+        elif family == "odd-id":
+            j_ = idx - (ci * 100000 + 80000)
+            cfg = odd_id_config(j_ * NCHUNKS + ci)
         else:
             try:
                 with open(os.path.join(STATELY, fname), encoding="utf-8") as fh:
@@ -899,11 +917,15 @@ def run_chunk(spec):
             combos = pick if tier == "quick" else pick + combos[:3]
             if family == "counter" and tier == "quick":
                 combos = combos[:2]
+            if family == "odd-id":
+                # written next to the JSON (the CLI's default), as two files: the runner imports the logic
+                combos = [(t_, am_, 2) for (t_, am_, _fc) in combos[:2]]
         for (t, am, fc) in combos:
             k += 1
             wd.arm("%s idx=%s %s" % (family, idx, t))
             judge(res, cfg, t, am, fc, family, {"idx": idx, "family": family, "file": fname},
-                  real_black=(k % 12 == 0), force_process=(family == "counter"))
+                  real_black=(k % 12 == 0), force_process=(family == "counter"),
+                  force_in_cwd=(family == "odd-id"))
             res.count("family." + family)
     wd.disarm()
     return res.to_json()
@@ -913,7 +935,7 @@ def quota(counters, tier):
     out = []
     need = ["compared.fingerprints", "compared.traces", "regenerated", "check-mode-runs", "cli.refused",
             "stately.exports", "formatter-stand-in-checked", "cli.runs.output-in-working-directory",
-            "cli.runs.own-process", "family.counter", "family.hostile-id", "runner.executed",
+            "cli.runs.own-process", "family.counter", "family.hostile-id", "family.odd-id", "runner.executed",
             "static.files-scanned-for-smuggled-code"]
     need += ["cli.wrote." + t for t in TEMPLATES]
     need += ["loaded." + t for t in TEMPLATES]
